@@ -1,4 +1,6 @@
 """C07 — Rational<T> arithmetic exact and canonical (rlib/rational, rlib/gcd)."""
+import re
+from math import isqrt
 ID = "C07"
 CRATE = "c07"
 COQ_DIR = "C07"
@@ -31,21 +33,39 @@ THEOREMS = [
     ("c07_model_implies_spec", "forall c : case, in_scope c -> model_check c = true -> spec_check c = true"),
     ("c07_floor_greatest", "forall x : rat, 0 < rb x -> exists n, floor x = Some (Rat n 1) /\\ (inject_Z n <= to_Q x)%Q /\\ (to_Q x < inject_Z (n + 1))%Q"),
     ("c07_ceil_least", "forall x : rat, 0 < rb x -> exists n, ceil x = Some (Rat n 1) /\\ (inject_Z (n - 1) < to_Q x)%Q /\\ (to_Q x <= inject_Z n)%Q"),
+    ("c07_unreduced_same", "forall x y x' y' : rat, 0 < rb x -> 0 < rb y -> small x -> small y -> new (ra x) (rb x) = Some x' -> new (ra y) (rb y) = Some y' -> add x y = add x' y' /\\ sub x y = sub x' y' /\\ mul x y = mul x' y' /\\ (ra y <> 0 -> div x y = div x' y') /\\ cmp x y = cmp x' y' /\\ floor x = floor x' /\\ ceil x = ceil x'"),
+    ("c07_new_canonical_id", "forall x : rat, canonical x -> Z.abs (rb x) < 2 ^ 130 -> new (ra x) (rb x) = Some x"),
 ]
 RULE = ("x = Rational::new(a,b), y = Rational::new(c,d); unary ops (new, neg, floor, ceil, Display) exhaustively for |a|,|b| <= 6 "
-        "(both denominator signs), binary ops (add, sub, mul, div, cmp, ==/hash) exhaustively for |.| <= 3 (quick) / 6 (thorough) "
-        "with the operator form (by value, by reference, assigning by value, assigning by reference) rotating, sampled pairs from "
-        "the |.| <= 6 box, boundary-biased samples up to 2^30 over i64/i128 and 2^14 over i32 (shared factors inside and across "
-        "the fractions, equal values in different representations, neighbours, powers of two); new(0,0) and 0/0 only in a tiny "
-        "stream where both sides must panic; non-trivial = a reduction or sign move is needed / operands differ / value is not "
-        "an integer (floor, ceil)")
-TRUSTED = ["executor harness/crates/c07 (builds Rational<i32|i64|i128> (and i8, i16, isize on the small box) through the public API, prints fields / Ordering / "
-           "equality of values and of fixed-key SipHash digests / Display text)",
-           "checks/c07.py (case generator, Coq term printer)"]
-ASSUMPTIONS = ["integers modelled as unbounded Z: the property excludes overflowing magnitudes; sampled operands stay <= 2^30 "
-               "(i32: 2^14), where c07_fits_2_30 shows no i64 intermediate reaches 2^62",
+        "(both denominator signs) on all six signed instantiations (i8, i16, i32, i64, i128, isize), new_int on all six up to MAX; "
+        "binary ops (add, sub, mul, div, cmp, ==/hash) exhaustively for |.| <= 3 (quick) / 6 (thorough), every arithmetic pair "
+        "through ALL FOUR operator forms (by value, by reference, assigning by value, assigning by reference; the executor "
+        "requires them to agree), sampled pairs from the |.| <= 6 box on all six types, boundary-biased samples up to 2^30 over "
+        "i64/i128 and 2^14 over i32, and up to each type's OWN threshold (binary ops and cmp: largest M with 2*M*M <= MAX, i.e. "
+        "7 / 127 / 32767 / 2^31-1 / 2^63-1; floor, ceil: (MAX-1)/2; new, neg, Display: MAX) with shared factors inside and across "
+        "the fractions, equal values in different representations, neighbours, powers of two +-1, all four fields at the "
+        "threshold; operands built by other routes than Rational::new: ZERO, ONE, new_int(a) (every op, every type), struct "
+        "literals a/b with b > 0 that are not in lowest terms (add, sub, mul, div, cmp, floor, ceil: the operations whose "
+        "theorems assume only 0 < b), and RESULTS of histories of 1-5 earlier operations (undo/redo of the previous operand, "
+        "x op x, x op -x; one observed case per step); every Rational the executor prints is first compared with "
+        "Rational::new of its own fields (==, Hash, clone, clone_from, cmp/partial_cmp/<,<=,>,>=/max/min where the "
+        "subtraction fits) and cmp cases also check clamp and the reversed comparison; new(0,0) and 0/0 only in a tiny stream "
+        "where both sides must panic; zero-valued divisors, zero denominators and literals with a non-positive denominator "
+        "are never generated otherwise; non-trivial = a reduction or sign move is needed / operands differ / value is not an "
+        "integer (floor, ceil) / a literal operand is unreduced / the operand is the result of an earlier operation")
+TRUSTED = ["executor harness/crates/c07 (builds Rational<i8|i16|i32|i64|i128|isize> through the public API - new, new_int, ZeroOne::ZERO/ONE, "
+           "struct literals, operator results -, prints fields / Ordering / equality of values and of fixed-key SipHash digests / "
+           "Display text, and an X line when one of its own consistency checks (result vs Rational::new of its fields, agreement of the "
+           "four operator forms, end value of a history) fails)",
+           "checks/c07.py (case generator incl. the exact rational arithmetic that computes the end value of a history, Coq term printer)"]
+ASSUMPTIONS = ["integers modelled as unbounded Z: the property excludes overflowing magnitudes; sampled operands stay within the "
+               "bound M of their instantiation with 2*M*M <= MAX (floor/ceil: 2*M+1 <= MAX), for which c07_fits_general shows that "
+               "no intermediate exceeds 2*M*M (2*M+1); isize is taken to be 64 bits wide",
                "Rust / on signed integers is Z.quot",
-               "hash agreement is observed through std's DefaultHasher with its fixed keys: equal digests are taken as equal hashes"]
+               "hash agreement is observed through std's DefaultHasher with its fixed keys: equal digests are taken as equal hashes",
+               "a case whose operand was built by another route (new_int, ZERO, ONE, struct literal, result of a history) is "
+               "judged through the same Coq case as Rational::new of the operand's value: c07_unreduced_same and "
+               "c07_new_canonical_id prove that the model returns the same results on both, and spec_check depends on the value only"]
 
 TYPES = ["i64", "i32", "i128"]
 BINARY = ["add", "sub", "mul", "div", "cmp", "eqhash"]
@@ -54,7 +74,10 @@ UNARY = ["new", "neg", "floor", "ceil", "show"]
 FORMS = ["val", "ref", "asgval", "asgref"]
 OPK = {"new": "ONew", "newint": "ONewInt", "add": "OAdd", "sub": "OSub", "mul": "OMul", "div": "ODiv", "neg": "ONeg",
        "cmp": "OCmp", "eqhash": "OEqHash", "floor": "OFloor", "ceil": "OCeil", "show": "OShow"}
-FORMK = {"val": "FVal", "ref": "FRef", "asgval": "FAsgVal", "asgref": "FAsgRef", "none": "FNone"}
+FORMK = {"val": "FVal", "ref": "FRef", "asgval": "FAsgVal", "asgref": "FAsgRef", "none": "FNone", "all": "FAll"}
+ALLTY = ["i64", "i32", "i128", "i8", "i16", "isize"]
+BITS = {"i8": 8, "i16": 16, "i32": 32, "i64": 64, "i128": 128, "isize": 64}
+KINDS = ["n", "l", "i", "z", "o"]     # how the executor builds an operand of value a/b (see harness main.rs)
 CMPK = {"lt": "Lt", "eq": "Eq", "gt": "Gt"}
 
 
@@ -63,7 +86,15 @@ def z(v):
 
 
 def harness_line(c):
-    return " ".join([c["ty"], c["op"], c["form"]] + [str(v) for v in c["args"]])
+    toks = [c["ty"], c["op"], c["form"]] + [str(v) for v in c["args"]]
+    if c.get("xk", "n") != "n":
+        toks.append("x=" + c["xk"])
+    if c.get("yk", "n") != "n":
+        toks.append("y=" + c["yk"])
+    if c.get("pre"):
+        h = c["pre"]
+        toks.append("pre=" + ";".join(["%d,%d" % tuple(h["start"])] + ["%s,%s,%d,%d" % tuple(st) for st in h["steps"]]))
+    return " ".join(toks)
 
 
 def coq_term(c, obs, profile):
@@ -81,6 +112,10 @@ def coq_term(c, obs, profile):
         if '"' in s or "\\" in s:
             raise RuntimeError("unexpected Display text %r" % s)
         o = '(RStr "%s"%%string)' % s
+    elif t[0] == "X":
+        # one of the executor's own consistency checks failed: an observation no prediction equals and no
+        # specification accepts
+        o = '(RBad "%s"%%string)' % re.sub(r"[^A-Za-z0-9 /=_.,:-]", "?", obs[2:])
     else:
         raise RuntimeError("unexpected executor output %r" % obs)
     return "(Case %s %s %s %s)" % (FORMK[c["form"]], OPK[c["op"]], " ".join(z(v) for v in c["args"]), o)
@@ -106,6 +141,11 @@ def nontrivial(c, obs):
     op = c["op"]
     if b == 0 or (op in BINARY and d == 0):
         return False
+    if c.get("pre"):
+        return True         # the operand is the result of at least one earlier operation
+    if c.get("xk") == "l" or c.get("yk") == "l":
+        # a literal operand counts when it is not what Rational::new would have produced
+        return (c.get("xk") == "l" and gcdpy(a, b) > 1) or (c.get("yk") == "l" and gcdpy(cc, d) > 1)
     if op in ("new", "show", "neg"):
         return b < 0 or gcdpy(a, b) > 1
     if op in ("floor", "ceil"):
@@ -121,11 +161,35 @@ def nontrivial(c, obs):
 
 
 def classify(c, obs):
-    return "%s/%s/%s/%s" % (c["op"], c["form"], c["ty"], "panic" if obs == "P" else "value")
+    route = "history" if c.get("pre") else ("x=%s,y=%s" % (c.get("xk", "n"), c.get("yk", "n")))
+    return "%s/%s/%s/%s/%s" % (c["op"], c["form"], c["ty"], route,
+                               "panic" if obs == "P" else ("executor-check-failed" if obs.startswith("X") else "value"))
 
 
-def mk(ty, op, form, a, b, c=0, d=1):
-    return {"ty": ty, "op": op, "form": form, "args": [a, b, c, d]}
+def mk(ty, op, form, a, b, c=0, d=1, xk="n", yk="n", pre=None):
+    r = {"ty": ty, "op": op, "form": form, "args": [a, b, c, d]}
+    if xk != "n":
+        r["xk"] = xk
+    if yk != "n":
+        r["yk"] = yk
+    if pre:
+        r["pre"] = pre
+    return r
+
+
+def tmax(ty):
+    return (1 << (BITS[ty] - 1)) - 1
+
+
+def mbin(ty):
+    """largest M with 2*M*M <= T::MAX: by c07_fits_general no intermediate of a binary operator or of cmp on
+    operands bounded by M leaves T (i8 7, i16 127, i32 32767, i64/isize 2^31-1, i128 2^63-1)"""
+    return isqrt(tmax(ty) // 2)
+
+
+def mfc(ty):
+    """largest M with 2*M+1 <= T::MAX: bound for floor / ceil"""
+    return (tmax(ty) - 1) // 2
 
 
 def interesting(rng, bound):
@@ -180,6 +244,325 @@ def sample_pair(rng, bound):
     return a, b, c, d
 
 
+# ---------------------------------------------------------------------------------------------- new families
+POWS = [7, 8, 15, 16, 31, 32, 33, 62, 63, 64, 65, 126]
+
+
+def edge(rng, bound):
+    """a magnitude in [0, bound], biased to the threshold itself, to powers of two and their neighbours"""
+    k = rng.below(12)
+    if k == 0:
+        v = rng.choice([bound, bound - 1, bound - 2, bound // 2, bound // 2 + 1, bound // 3])
+    elif k == 1:
+        e = rng.choice(POWS)
+        v = (1 << e) + rng.choice([-1, 0, 1])
+    elif k == 2:
+        v = (1 << rng.below(max(1, bound.bit_length()))) + rng.choice([-1, 0, 0, 1])
+    elif k == 3:
+        v = rng.range(0, 12)
+    elif k == 4:
+        v = rng.range(0, 1 << max(1, bound.bit_length() // 2))
+    elif k == 5:
+        v = bound - rng.range(0, 40)
+    else:
+        v = rng.range(0, bound)
+    v = max(0, min(bound, v))
+    return -v if rng.chance(2, 5) else v
+
+
+def edge_pair(rng, bound):
+    """(a, b, c, d), b, d != 0, |.| <= bound (bound >= 3), biased like sample_pair but usable for tiny bounds"""
+    a, b = edge(rng, bound), nonzero(edge(rng, bound))
+    k = rng.below(9)
+    if k == 0:        # same value, other representation
+        h = canon(a, b)
+        g = nonzero(rng.range(-5, 5))
+        c, d = h[0] * g, h[1] * g
+        if abs(c) > bound or abs(d) > bound:
+            c, d = -a, -b
+    elif k == 1:      # neighbour
+        c, d = a + rng.choice([-1, 1]), b
+    elif k == 2:      # shared factor inside and across the fractions
+        g = rng.range(2, max(2, min(1 << 10, isqrt(bound))))
+        sb = max(1, bound // g)
+        a, b = edge(rng, sb), nonzero(edge(rng, sb)) * g
+        c, d = edge(rng, sb) * g, nonzero(edge(rng, sb))
+        if rng.chance(1, 2):
+            d *= g
+            c //= g
+    elif k == 3:      # same denominator up to sign
+        c, d = edge(rng, bound), -b if rng.chance(1, 2) else b
+    elif k == 4:      # negation / reciprocal
+        c, d = (-a, b) if rng.chance(1, 2) else (b, nonzero(a))
+    elif k == 5:      # all four at the threshold
+        s = [rng.choice([bound, bound - 1, bound - 2, -bound, -(bound - 1)]) for _ in range(4)]
+        a, b, c, d = s
+    else:
+        c, d = edge(rng, bound), nonzero(edge(rng, bound))
+    a, b, c, d = clampf(a, bound), nonzero(clampf(b, bound)), clampf(c, bound), nonzero(clampf(d, bound))
+    return a, b, c, d
+
+
+def q_bin(op, x, y):
+    """exact result of a binary operator on canonical pairs, canonical (None: division by a zero value)"""
+    num, den = {"add": (x[0] * y[1] + x[1] * y[0], x[1] * y[1]), "sub": (x[0] * y[1] - x[1] * y[0], x[1] * y[1]),
+                "mul": (x[0] * y[0], x[1] * y[1]), "div": (x[0] * y[1], x[1] * y[0])}[op]
+    return None if den == 0 else canon(num, den)
+
+
+def q_un(op, x):
+    if op == "neg":
+        return (-x[0], x[1])
+    if op == "floor":
+        return (x[0] // x[1], 1)            # Python's // rounds down
+    if op == "ceil":
+        return (-((-x[0]) // x[1]), 1)
+    raise ValueError(op)
+
+
+def history_cases(rng, ty, bound, nsteps, box):
+    """A history x0 -> x1 -> ... of operator applications whose every operand and result stays within `bound`
+    (so within the no-overflow theorem).  One case per step: the executor replays the earlier steps (`pre`),
+    checks that it arrived at the exact value computed here, and performs the step under observation on that
+    RESULT value; Coq judges the step from the canonical fields.  The last step may be any operation."""
+    def operand():
+        if box:
+            return canon(rng.range(-box, box), nonzero(rng.range(-box, box)))
+        return canon(edge(rng, bound), nonzero(edge(rng, bound)))
+    x = operand()
+    start = list(x)
+    steps, out, prev = [], [], None
+    for j in range(nsteps):
+        last = j == nsteps - 1
+        for _attempt in range(6):
+            r = rng.below(20)
+            if last and r < 7:
+                op = rng.choice(["cmp", "eqhash", "show", "new", "cmp", "eqhash", "floor", "ceil", "neg"])
+            elif r < 15:
+                op = rng.choice(ARITH)
+            else:
+                op = rng.choice(["neg", "floor", "ceil", "neg"])
+            y = (0, 1)
+            if op in BINARY:
+                k = rng.below(6)
+                if k == 0 and prev is not None:
+                    y = prev                     # undo / redo the previous step's operand (s += t; s -= t)
+                elif k == 1:
+                    y = x                        # x - x, x / x, x == x
+                elif k == 2:
+                    y = (-x[0], x[1])
+                else:
+                    y = operand()
+                if op == "div" and y[0] == 0:
+                    continue
+            if op in ARITH:
+                nx = q_bin(op, x, y)
+            elif op in ("neg", "floor", "ceil"):
+                nx = q_un(op, x)
+            else:
+                nx = x
+            if max(abs(nx[0]), abs(nx[1]), abs(y[0]), abs(y[1])) > bound:
+                continue
+            break
+        else:
+            break
+        form = rng.choice(FORMS + ["all"]) if op in ARITH else "none"
+        pre = {"start": start, "steps": [list(st) for st in steps]} if steps else None
+        out.append(mk(ty, op, form, x[0], x[1], y[0], y[1], pre=pre))
+        if op not in ARITH and op not in ("neg", "floor", "ceil"):
+            break
+        steps.append([op, form, y[0], y[1]])
+        if op in BINARY:
+            prev = y
+        x = nx
+    return out
+
+
+def kind_args(rng, kind, box, lit_scale=1):
+    """(a, b) for an operand of the given kind drawn from the |.| <= box square"""
+    if kind == "z":
+        return 0, 1
+    if kind == "o":
+        return 1, 1
+    if kind == "i":
+        return rng.range(-box, box), 1
+    if kind == "l":     # positive denominator, usually not in lowest terms
+        g = rng.range(1, max(1, lit_scale))
+        a, b = rng.range(-box, box), rng.range(1, box)
+        if a * g > -(box + 1) and abs(a * g) <= box and b * g <= box:
+            a, b = a * g, b * g
+        return a, b
+    return rng.range(-box, box), nonzero(rng.range(-box, box))
+
+
+def in_contract(c):
+    """every constructor argument / operand field within the bound for which the no-overflow theorem
+    (c07_fits_general) covers the operation on this instantiation; non-zero denominators; literal operands
+    with a positive denominator; no division by a zero value.  A guard against generator slips: a case outside
+    the contract would compare overflow behaviour, which the property does not speak about."""
+    a, b, cc, d = c["args"]
+    op, ty = c["op"], c["ty"]
+    binary = op in BINARY
+    bound = mbin(ty) if binary else (mfc(ty) if op in ("floor", "ceil") else tmax(ty))
+    vals = [a, b] + ([cc, d] if binary else [])
+    if any(abs(v) > bound for v in vals):
+        return False
+    if b == 0 or (binary and d == 0) or (op == "div" and cc == 0):
+        return False
+    if (c.get("xk") == "l" and b <= 0) or (c.get("yk") == "l" and d <= 0):
+        return False
+    if c.get("xk") == "l" and op not in ARITH + ["cmp", "floor", "ceil"]:
+        return False
+    if c.get("yk") == "l" and op not in ARITH + ["cmp"]:
+        return False
+    if c.get("pre"):
+        m = mbin(ty)
+        h = c["pre"]
+        if any(abs(v) > m for v in h["start"]) or any(abs(st[2]) > m or abs(st[3]) > m for st in h["steps"]):
+            return False
+    return True
+
+
+def new_families(rng, tier):
+    cases = []
+    quick = tier == "quick"
+    K1 = 6
+    # ---- (G4) the exhaustive unary box and new_int on every instantiation (the Coq terms are those of i64: proved once)
+    for ty in ALLTY:
+        for a in range(-K1, K1 + 1):
+            for b in range(-K1, K1 + 1):
+                if b != 0 and ty != "i64":
+                    for op in UNARY:
+                        cases.append(mk(ty, op, "none", a, b))
+            if ty != "i64":
+                cases.append(mk(ty, "newint", "none", a, 1))
+        m = tmax(ty)
+        for a in sorted({m, m - 1, m // 2, m // 2 + 1, 7, 8, 127, 128, 255, 256, 32767, 32768, 65535, 65536,
+                         (1 << 31) - 1, 1 << 31, (1 << 32) + 1, (1 << 62) - 1, (1 << 63) - 1, 1 << 64, (1 << 100) + 1}):
+            if a <= m:
+                cases.append(mk(ty, "newint", "none", a, 1))
+                cases.append(mk(ty, "newint", "none", -a, 1))
+    # ---- (G3) ZERO, ONE, new_int(a) as values and as operands of every operation, every instantiation
+    for ty in ALLTY:
+        consts = [("z", 0, 1), ("o", 1, 1)] + [("i", a, 1) for a in range(-K1, K1 + 1)]
+        for (k, a, b) in consts:
+            for op in UNARY:
+                cases.append(mk(ty, op, "none", a, b, xk=k))
+        for (kx, a, b) in consts[:2] + [("i", -3, 1), ("i", 5, 1)]:      # constants against constants
+            for (ky, c, d) in consts[:2] + [("i", -3, 1), ("i", 2, 1)]:
+                for op in BINARY:
+                    if not (op == "div" and c == 0):
+                        cases.append(mk(ty, op, "all" if op in ARITH else "none", a, b, c, d, xk=kx, yk=ky))
+        for _ in range(60 if quick else 700):
+            kx, ky = rng.choice(["z", "o", "i", "i", "n"]), rng.choice(["z", "o", "i", "i", "n"])
+            if kx == "n" and ky == "n":
+                kx = "i"
+            op = rng.choice(BINARY)
+            a, b = kind_args(rng, kx, K1)
+            c, d = kind_args(rng, ky, K1)
+            if op == "div" and c == 0:
+                continue
+            cases.append(mk(ty, op, rng.choice(FORMS + ["all"]) if op in ARITH else "none", a, b, c, d, xk=kx, yk=ky))
+        # new_int of a large value as an operand (binary bound of the type)
+        for _ in range(10 if quick else 150):
+            M = mbin(ty)
+            a, c, d = edge(rng, M), edge(rng, M), nonzero(edge(rng, M))
+            op = rng.choice(BINARY + ["floor", "ceil", "neg", "show"])
+            if op == "div" and c == 0:
+                c = 1
+            if op in BINARY:
+                if rng.chance(1, 2):
+                    cases.append(mk(ty, op, rng.choice(FORMS) if op in ARITH else "none", a, 1, c, d, xk="i"))
+                else:
+                    cases.append(mk(ty, op, rng.choice(FORMS) if op in ARITH else "none", c, d, nonzero(a) if op == "div" else a, 1, yk="i"))
+            else:
+                cases.append(mk(ty, op, "none", a, 1, xk="i"))
+    # ---- (G5) struct-literal operands with a positive denominator, usually not in lowest terms.  Only the
+    # operations whose theorems assume nothing but 0 < b: + - * / cmp floor ceil (c07_unreduced_same)
+    LITB = ARITH + ["cmp"]
+    for a in range(-K1, K1 + 1):
+        for b in range(1, K1 + 1):
+            for op in ("floor", "ceil"):
+                cases.append(mk("i64", op, "none", a, b, xk="l"))
+    for (a, b) in [(2, 4), (-2, 4), (0, 3), (6, 3), (-6, 4)]:
+        for (c, d) in [(1, 2), (3, 6), (-3, 6), (4, 2), (0, 5)]:
+            for op in LITB:
+                for (kx, ky) in (("l", "n"), ("n", "l"), ("l", "l")):
+                    if not (op == "div" and c == 0):
+                        cases.append(mk("i64", op, "all" if op in ARITH else "none", a, b, c, d, xk=kx, yk=ky))
+    for _ in range(500 if quick else 7000):
+        ty = rng.choice(ALLTY)
+        kx, ky = rng.choice([("l", "n"), ("n", "l"), ("l", "l"), ("l", "i"), ("z", "l"), ("l", "o")])
+        op = rng.choice(LITB + ["floor", "ceil"])
+        if op in ("floor", "ceil"):
+            a, b = kind_args(rng, "l", K1, 3)
+            cases.append(mk(ty, op, "none", a, b, xk="l"))
+            continue
+        a, b = kind_args(rng, kx, K1, 3)
+        c, d = kind_args(rng, ky, K1, 3)
+        if op == "div" and c == 0:
+            continue
+        cases.append(mk(ty, op, rng.choice(FORMS + ["all"]) if op in ARITH else "none", a, b, c, d, xk=kx, yk=ky))
+    for _ in range(400 if quick else 9000):     # unreduced literals up to the type's threshold
+        ty = rng.choice(ALLTY)
+        op = rng.choice(LITB + LITB + ["floor", "ceil"])
+        M = mfc(ty) if op in ("floor", "ceil") else mbin(ty)
+        g = rng.choice([2, 2, 3, 4, 6, 10, rng.range(2, max(2, min(1 << 12, isqrt(M))))])
+        if g > M // 2:
+            g = 2
+        sb = max(1, M // g)
+        a, b = edge(rng, sb) * g, max(1, abs(edge(rng, sb))) * g
+        if op in ("floor", "ceil"):
+            if rng.chance(1, 4):        # exact multiples of the (unreduced) denominator and their neighbours
+                q = edge(rng, max(1, sb // max(1, b // g)))
+                a = clampf(q * b + rng.choice([-1, 0, 0, 1]), M)
+            cases.append(mk(ty, op, "none", a, b, xk="l"))
+            continue
+        c, d = edge(rng, M), nonzero(edge(rng, M))
+        kx, ky = "l", "n"
+        if rng.chance(1, 3):
+            c, d, ky = edge(rng, sb) * g, max(1, abs(edge(rng, sb))) * g, "l"
+        if rng.chance(1, 3):
+            a, b, c, d, kx, ky = c, d, a, b, ky, kx
+        if op == "div" and c == 0:
+            continue
+        cases.append(mk(ty, op, rng.choice(FORMS) if op in ARITH else "none", a, b, c, d, xk=kx, yk=ky))
+    # ---- (G1) histories: an operation applied to the RESULT of earlier operations
+    for _ in range(300 if quick else 6000):
+        ty = rng.choice(ALLTY)
+        if rng.chance(1, 2) and ty not in ("i8",):
+            cases += history_cases(rng, ty, mbin(ty), rng.range(2, 4 if quick else 6), 0 if rng.chance(1, 2) else 12)
+        else:
+            cases += history_cases(rng, ty, mbin(ty), rng.range(2, 4 if quick else 6), min(K1, mbin(ty)))
+    # ---- (G2) every instantiation up to ITS OWN threshold: 2*M*M <= MAX for the binary operators and cmp,
+    # 2*M+1 <= MAX for floor / ceil, MAX for new / neg / Display
+    for _ in range(1500 if quick else 45000):
+        ty = rng.choice(ALLTY + ["i128", "i16", "i8"])
+        op = rng.choice(BINARY + BINARY + UNARY)
+        if op in BINARY:
+            bound = mbin(ty)
+            if rng.chance(1, 8) and bound > 16:
+                bound = 1 << rng.range(3, bound.bit_length() - 1)
+            a, b, c, d = edge_pair(rng, bound)
+            if op == "div" and c == 0:
+                c = rng.choice([1, -1, bound])
+            cases.append(mk(ty, op, rng.choice(FORMS) if op in ARITH else "none", a, b, c, d))
+        else:
+            bound = mfc(ty) if op in ("floor", "ceil") else tmax(ty)
+            if rng.chance(1, 8):
+                bound = 1 << rng.range(3, bound.bit_length() - 1)
+            a, b = edge(rng, bound), nonzero(edge(rng, bound))
+            if rng.chance(1, 3):
+                g = rng.range(2, 1 << 8)
+                a, b = clampf(a // g * g, bound), nonzero(clampf(b // g * g, bound))
+            if rng.chance(1, 6) and op in ("floor", "ceil"):   # exact multiples and their neighbours
+                bb = nonzero(edge(rng, max(1, isqrt(bound))))
+                q = edge(rng, max(1, bound // abs(bb) - 1))
+                a, b = clampf(q * bb + rng.choice([-1, 0, 0, 1]), bound), bb
+            cases.append(mk(ty, op, "none", a, b))
+    return cases
+
+
 def generate(rng, tier):
     cases = []
     quick = tier == "quick"
@@ -201,7 +584,9 @@ def generate(rng, tier):
             for op in BINARY:
                 if op == "div" and c == 0:
                     continue
-                form = FORMS[k % 4] if op in ARITH else "none"
+                # all four operator forms of every (pair, operator): the executor runs them one after the other and
+                # reports a disagreement between them as an observation nothing accepts
+                form = "all" if op in ARITH else "none"
                 k += 1
                 cases.append(mk("i64", op, form, a, b, c, d))
     if True:    # sampled pairs from the larger box, every instantiation
@@ -241,15 +626,32 @@ def generate(rng, tier):
                 bb = nonzero(interesting(rng, bound >> 11))
                 a, b = q * bb + rng.choice([-1, 0, 0, 1]), bb
             cases.append(mk(ty, op, "none", a, b))
+    cases += [c for c in new_families(rng.fork("families"), tier) if in_contract(c)]
     return cases
 
 
 def shrink(c):
     out = []
     args = c["args"]
+    xk, yk = c.get("xk", "n"), c.get("yk", "n")
+    if c.get("pre"):
+        # the history and the operand fields belong together: first try the same operand built by Rational::new,
+        # then shorter histories are not attempted (their end value would have to be recomputed)
+        plain = {k: v for k, v in c.items() if k != "pre"}
+        return [plain]
+
+    def allowed(i, w):
+        k = xk if i < 2 else yk
+        if k in ("z", "o"):
+            return False
+        if k == "i" and i in (1, 3):
+            return False
+        if k == "l" and i in (1, 3) and w <= 0:
+            return False
+        return True
     for i, v in enumerate(args):
         for w in (0, v // 2, -(-v // 2), v - 1 if v > 0 else v + 1, -v if v < 0 else v, 1):
-            if w == v:
+            if w == v or not allowed(i, w):
                 continue
             if i in (1, 3) and w == 0:
                 continue
@@ -262,9 +664,13 @@ def shrink(c):
         out.append(dict(c, ty="i64"))
     if c["form"] not in ("val", "none"):
         out.append(dict(c, form="val"))
+    if xk != "n" and not (xk == "l" and args[1] <= 0):
+        out.append({k: v for k, v in c.items() if k != "xk"})
+    if yk != "n" and not (yk == "l" and args[3] <= 0):
+        out.append({k: v for k, v in c.items() if k != "yk"})
     seen, res = set(), []
     for o in out:
-        k = (o["ty"], o["form"], tuple(o["args"]))
+        k = (o["ty"], o["form"], tuple(o["args"]), o.get("xk", "n"), o.get("yk", "n"))
         if k not in seen:
             seen.add(k)
             res.append(o)
@@ -275,12 +681,16 @@ MANIFEST = {
     "text": "Theorems (Coq, no axioms) about an executable Gallina model of rlib_rational::Rational over unbounded Z with truncating "
             "division and C11's verified gcd model: constructor and operator results are canonical (positive denominator, lowest "
             "terms) and equal the exact rational value in Q; canonical forms are unique, so derived ==/Hash agree with numeric "
-            "equality; cmp is the order of Q; floor/ceil are Qfloor/Qceiling for both signs; for |.| <= 2^30 no intermediate "
-            "reaches 2^62; model_check -> spec_check is proved for inputs below 2^32. The model is tied to the code on every run: the executor drives Rational<i32|i64|i128> from /repo "
-            "through every operator form on exhaustive small boxes plus boundary-biased samples and Coq proves "
+            "equality; cmp is the order of Q; floor/ceil are Qfloor/Qceiling for both signs; operands that are not in lowest terms "
+            "(struct literals, b > 0) give the results of Rational::new of their fields; for operands bounded by M no intermediate "
+            "exceeds 2*M*M (for |.| <= 2^30 none reaches 2^62); model_check -> spec_check is proved for inputs below 2^32. The model "
+            "is tied to the code on every run: the executor drives Rational<i8|i16|i32|i64|i128|isize> from /repo through all four "
+            "forms of every operator on exhaustive small boxes plus boundary-biased samples up to each type's own overflow "
+            "threshold, with operands built by new, new_int, ZERO/ONE, struct literals and as results of earlier operations, "
+            "checks every result against Rational::new of its own fields (==, Hash, clone, order), and Coq proves "
             "model = implementation and implementation |= spec (exact cross-multiplication) on every case.",
     "level_note": "Trusted: Coq kernel + vm_compute; the Rust executor and the Python case printer; integers are unbounded Z "
-                  "(overflow is outside the property's quantifier; the fits theorem covers the stated box); hashing observed "
+                  "(overflow is outside the property's quantifier; the fits theorems cover the sampled boxes); hashing observed "
                   "through std's fixed-key DefaultHasher; theorems are about the model, the correspondence is sampled.",
     "technique": "Coq proof over Gallina model + vm_compute correspondence batches against the Rust crate",
 }
